@@ -96,10 +96,25 @@ pub struct Case {
     /// HTTP/2 client: one cookie field per crumb (RFC 9113 8.2.3) instead of the joined form
     pub split_cookies: bool,
     pub reqs: Vec<Req>,
-    /// regression files only: play a known finding that generated cases exclude by construction
+    /// regression files only: play a known finding that generated cases exclude by construction (`KNOWN`)
     #[serde(default)]
     pub strict: bool,
+    /// shapes removed by the exclusions when the case was generated
+    #[serde(default)]
+    pub excluded: u32,
 }
+
+/// Known findings, excluded by construction unless `strict` (signature suffix, what is excluded):
+/// * `h1-keepalive-second-request-fails`: the second request on an HTTP/1.1 keep-alive connection toward an h2c
+///   backend is answered 502 after it reached the backend (mux/h1.rs:718-733 does not clear
+///   `back_received_end_of_stream`): on path A every request gets its own connection;
+/// * `h2-trailers-after-content-length-reach-h1-backend`: trailers of an HTTP/2 request that declared
+///   content-length are written after the body toward an HTTP/1.1 backend, which reads them as the start of the
+///   next request: on path B a request with trailers declares no length;
+/// * `response-trailer-elided`: response trailers named x-real-ip, x-forwarded-for, forwarded, x-request-id are
+///   removed (pkawa.rs:1409, meant for requests): h2c response trailers do not use these names.
+pub const KNOWN: [&str; 3] = ["h1-keepalive-second-request-fails", "h2-trailers-after-content-length-reach-h1-backend", "response-trailer-elided"];
+const ELIDED_TRAILER_NAMES: &[&str] = &["x-real-ip", "x-forwarded-for", "forwarded", "x-request-id"];
 
 impl Case {
     pub fn path(&self) -> usize {
@@ -208,6 +223,7 @@ fn build_case(p: u32, alt_listener: bool, concurrent: bool, split_cookies: bool,
     let backend_h2 = path != 1;
     let cfg = &CFGS[alt_listener as usize];
     let mut any_forbidden = false;
+    let mut excluded = 0u32;
     let reqs: Vec<Req> = raws
         .into_iter()
         .map(|(m, t, headers, body_len, declare_length, trailers, forb, (st, rh, rlen, rdeclare, rtrailers))| {
@@ -235,6 +251,13 @@ fn build_case(p: u32, alt_listener: bool, concurrent: bool, split_cookies: bool,
             let trailers: Vec<Hdr> = if body { c13::resolve(trailers, cfg, 0, true).into_iter().map(|(n, v)| (n, ascii_trimmed(&v))).filter(|(_, v)| v.len() < 600).collect() } else { vec![] };
             // an HTTP/1.1 message carries trailers only with the chunked coding
             let declare_length = if !client_h2 && !trailers.is_empty() { false } else { declare_length };
+            // known finding (KNOWN[1]): content-length + trailers toward an HTTP/1.1 backend
+            let declare_length = if path == 1 && !trailers.is_empty() && declare_length {
+                excluded += 1;
+                false
+            } else {
+                declare_length
+            };
             let status = STATUSES[pick_idx(st, STATUSES.len())];
             let bodiless = matches!(status, 204 | 304);
             let mut rh: Vec<Hdr> = c13::resolve(rh, cfg, 0, false).into_iter().map(|(n, v)| (n, ascii_trimmed(&v))).collect();
@@ -247,7 +270,11 @@ fn build_case(p: u32, alt_listener: bool, concurrent: bool, split_cookies: bool,
                 rtotal += n.len() + v.len() + 4;
                 rtotal < 9000
             });
-            let rtrailers: Vec<Hdr> = if path == 2 && !bodiless { c13::resolve(rtrailers, cfg, 0, false).into_iter().map(|(n, v)| (n, ascii_trimmed(&v))).filter(|(_, v)| v.len() < 600).collect() } else { vec![] };
+            let mut rtrailers: Vec<Hdr> = if path == 2 && !bodiless { c13::resolve(rtrailers, cfg, 0, false).into_iter().map(|(n, v)| (n, ascii_trimmed(&v))).filter(|(_, v)| v.len() < 600).collect() } else { vec![] };
+            // known finding (KNOWN[2])
+            let before = rtrailers.len();
+            rtrailers.retain(|(n, _)| !ELIDED_TRAILER_NAMES.contains(&n.to_ascii_lowercase().as_str()));
+            excluded += (before - rtrailers.len()) as u32;
             let forbidden = forb.map(|f| make_forbidden(client_h2, f));
             any_forbidden |= forbidden.is_some();
             Req {
@@ -262,8 +289,12 @@ fn build_case(p: u32, alt_listener: bool, concurrent: bool, split_cookies: bool,
             }
         })
         .collect();
+    // known finding (KNOWN[0]): no keep-alive on path A
+    if path == 0 && reqs.len() > 1 {
+        excluded += 1;
+    }
     // a refused stream may take the connection with it: such scenarios go one request at a time
-    Case { path, alt_listener, concurrent: client_h2 && concurrent && !any_forbidden && reqs.len() > 1, split_cookies: client_h2 && split_cookies, reqs, strict: false }
+    Case { path, alt_listener, concurrent: client_h2 && concurrent && !any_forbidden && reqs.len() > 1, split_cookies: client_h2 && split_cookies, reqs, strict: false, excluded }
 }
 
 pub fn strategy() -> impl Strategy<Value = Case> {
@@ -552,7 +583,8 @@ fn run_h1_client(pl: &PathLab, case: &Case, host: &str, base: usize, peers: &mut
             RawOut::Timeout => Got::Timeout(format!("wrote: {wrote:?}")),
             other => Got::Closed(format!("{} (wrote: {wrote:?})", hdrlab::describe(&other))),
         };
-        let close = match &got {
+        let close = !case.strict
+            || match &got {
             Got::Response(m, _) => !m.clean || m.status() == Some(400) || c13::has_token(&sent.values("connection"), b"close") || c13::has_token(&m.values("connection"), b"close") || m.values("x-lab-resp").is_empty(),
             _ => true,
         };
@@ -671,6 +703,34 @@ fn value_kinds(rep: &mut CaseReport, v: &str) -> bool {
 }
 
 pub fn scenario(pl: &mut PathLab, case: &Case) -> CheckResult {
+    let path = PATHS[case.path()];
+    match scenario_inner(pl, case) {
+        Ok(mut rep) => {
+            rep.excluded_known += case.excluded as u64;
+            Ok(rep)
+        }
+        // the committed strict reproducers get the signature of the finding they play
+        Err(f) if case.strict => {
+            let is = |names: &[&str]| names.iter().any(|n| f.signature == sig(n, path));
+            let known = if case.path() == 0 && case.reqs.len() > 1 && is(&["refused-but-forwarded", "no-response", "request-rejected", "connection-closed"]) {
+                Some(KNOWN[0])
+            } else if case.path() == 1 && case.reqs.iter().any(|r| r.declare_length && !r.trailers.is_empty()) && is(&["unexpected-request-at-backend", "request-unreadable-at-backend"]) {
+                Some(KNOWN[1])
+            } else if case.reqs.iter().any(|r| r.resp.trailers.iter().any(|(n, _)| ELIDED_TRAILER_NAMES.contains(&n.to_ascii_lowercase().as_str()))) && is(&["response-trailer-changed"]) {
+                Some(KNOWN[2])
+            } else {
+                None
+            };
+            Err(match known {
+                Some(k) => Failure::new(sig(k, path), format!("{} ({})", f.message, f.signature)),
+                None => f,
+            })
+        }
+        Err(f) => Err(f),
+    }
+}
+
+fn scenario_inner(pl: &mut PathLab, case: &Case) -> CheckResult {
     let mut rep = CaseReport::default();
     if !pl.lab.worker.alive() {
         return Err(Failure::new(sig("worker-died", PATHS[case.path()]), format!("the worker thread is gone: {:?}", pl.lab.worker.join())));
@@ -731,15 +791,22 @@ pub fn scenario(pl: &mut PathLab, case: &Case) -> CheckResult {
         let g = pl.lab.h2_shared.lock().unwrap();
         (g.recorded.clone(), g.violations.clone())
     };
-    let h1rec = pl.lab.h1_shared.lock().unwrap().recorded.clone();
+    let (h1rec, h1raw) = {
+        let g = pl.lab.h1_shared.lock().unwrap();
+        (g.recorded.clone(), g.raw.clone())
+    };
+    let raw_tail = |backend: usize, conn: usize| -> String {
+        let b = h1raw.get(&(backend, conn)).cloned().unwrap_or_default();
+        lossy(&b[b.len().saturating_sub(500)..])
+    };
     if let Some(v) = h2viol.iter().find(|v| v.contains("HPACK")) {
         fail!(sig("undecodable-header-block", path), "toward the h2c backend: {v}");
     }
     let wanted: BTreeSet<usize> = (0..case.reqs.len()).map(|i| base + i).collect();
     for r in &h1rec {
         match (&r.msg, r.lab_req) {
-            (None, _) => fail!(sig("request-unreadable-at-backend", path), "the HTTP/1.1 backend received bytes that are not one well-formed request: {:?}", r.invalid),
-            (Some(m), n) if !n.map(|n| wanted.contains(&n)).unwrap_or(false) => fail!(sig("unexpected-request-at-backend", path), "the HTTP/1.1 backend received a request that no client of this scenario sent: {:?} {:?}", m.start_line, m.headers),
+            (None, _) => fail!(sig("request-unreadable-at-backend", path), "the HTTP/1.1 backend received bytes that are not one well-formed request: {:?}; the last bytes on that backend connection: {:?}", r.invalid, raw_tail(r.backend, r.conn)),
+            (Some(m), n) if !n.map(|n| wanted.contains(&n)).unwrap_or(false) => fail!(sig("unexpected-request-at-backend", path), "the HTTP/1.1 backend received a message that no client of this scenario sent as a request: start line {:?}, fields {:?}; the last bytes on that backend connection: {:?}", m.start_line, m.headers, raw_tail(r.backend, r.conn)),
             _ => {}
         }
     }
@@ -885,7 +952,7 @@ pub fn scenario(pl: &mut PathLab, case: &Case) -> CheckResult {
     rep.class_if(case.alt_listener, "listener_elide_send_custom_names");
     rep.class_if(case.concurrent, "h2_streams_concurrent");
     rep.class_if(case.client_h2() && case.reqs.len() > 1 && !case.concurrent, "h2_streams_sequential");
-    rep.class_if(!case.client_h2() && case.reqs.len() > 1, "h1_keep_alive");
+    rep.class_if(!case.client_h2() && case.reqs.len() > 1, if case.strict { "h1_keep_alive" } else { "h1_connection_per_request" });
     rep.class_if(case.split_cookies && any_cookie, "h2_cookie_one_field_per_crumb");
     rep.class_if(any_dup, "duplicate_name");
     rep.class_if(any_cookie, "cookies");
